@@ -124,13 +124,11 @@ C01Checks(e) ==
                         \* path independence: all zero-argument getters agree
                         + (IF Has(x, "da") THEN Chk("C01.path-independence", << k, x.a, IF Has(x, "diff") THEN x.diff ELSE "" >>, x.da = x.db) ELSE 0))
                 \* stepping n days on the lunar side = stepping n days on the civil side
-                + (IF Has(x, "nx")
-                     THEN LET nx == x.nx
-                          IN IF nx[2] # 0 THEN Chk("C01.next.panic", << k, nx[1] >>, FALSE)
-                             ELSE Chk("C01.next.civil-day", << k, nx[1] >>, nx[9] = J + nx[1] /\ nx[10] = c[4])
-                                  + Chk("C01.next.same-as-civil-route", << k, nx[1] >>,
-                                        << nx[3], nx[4], nx[5], nx[6], nx[7], nx[8] >> = << nx[11], nx[12], nx[13], nx[14], nx[15], nx[16] >>)
-                     ELSE 0))
+                + SumSeq(x.nx, LAMBDA nx :
+                     IF nx[2] # 0 THEN Chk("C01.next.panic", << k, nx[1] >>, FALSE)
+                     ELSE Chk("C01.next.civil-day", << k, nx[1] >>, nx[9] = J + nx[1] /\ nx[10] = c[4])
+                          + Chk("C01.next.same-as-civil-route", << k, nx[1] >>,
+                                << nx[3], nx[4], nx[5], nx[6], nx[7], nx[8] >> = << nx[11], nx[12], nx[13], nx[14], nx[15], nx[16] >>)))
        \* order preservation along the year: lunar (year, month position, day) strictly increases with the civil day
        + SumN(n - 1, LAMBDA i :
            IF okRow(i) /\ okRow(i + 1)
